@@ -14,7 +14,7 @@ CONSTANTS
   Msgs <- MC_Msgs
   MaxLoss = 0
   MaxVanish = 0
-  Adv <- MC_Adv
+  Adv <- MC_Adv2
   MaxAdv = 2
   Sched = "rtc"
   Horizon = 7000
